@@ -132,11 +132,11 @@ def run(tier, seed):
     final = runloop.response_json({"outcome": "done", "rid": True, "calls": []}, 1)
     echo = []
     for stateless in (False, True):
-        for nm, (cid, name) in {"empty_id": ("", "ls"), "id_64": ("x" * 64, "ls"), "id_65": ("x" * 65, "ls"), "id_unicode": ("é漢", "ls"), "id_spaces": ("  ", "ls"),
+        for nm, (cid, name) in {"empty_id": ("", "ls"), "id_64": ("x" * 64, "ls"), "id_65": ("x" * 65, "ls"), "id_200": ("y" * 64 + "z" * 136, "ls"), "id_unicode": ("é漢", "ls"), "id_spaces": ("  ", "ls"),
                                 "name_dotted": ("c1", "functions.ls"), "name_65": ("c1", "l" * 65), "name_64": ("c1", "l" * 64), "name_empty": ("c1", ""),
                                 "name_unicode": ("c1", "lś"), "plain": ("c1", "ls")}.items():
             echo.append({"id": f"echo-{nm}-{'stateless' if stateless else 'stateful'}", "script": [odd_call(cid, name), final, final], "linked": True, "input": "x",
-                         "config": {"tool_choice": "auto", "stateless_history": stateless}, "timeout_ms": 15000, "_valid": nm in ("id_64", "plain", "id_unicode", "id_spaces")})
+                         "config": {"tool_choice": "auto", "stateless_history": stateless}, "timeout_ms": 15000, "_valid": nm in ("id_64", "plain", "id_unicode", "id_spaces"), "_cid": cid})
     eres = run_harness("runs", [{k: c[k] for k in c if not k.startswith("_")} for c in echo], wd, "echo", shards=8, timeout=900)
     eby = {c["id"]: c for c in echo}
     for res in eres:
@@ -147,6 +147,13 @@ def run(tier, seed):
             v.violation(f"run did not end ({c['id']})", rep)
         elif c["id"].startswith("echo-plain") and len(res["requests"]) != 2:
             v.violation(f"{c['id']}: {len(res['requests'])} requests for one ordinary call", rep)
+        else:
+            # whatever is answered is answered under the call id the provider issued - or the follow-up is not sent at all
+            issued = c["_cid"]
+            for k, ans_ in enumerate(runloop.answered_ids(res["requests"], c["config"]["stateless_history"])):
+                if any(a_ != issued for a_ in ans_) or len(ans_) > 1:
+                    v.violation(f"{c['id']}: follow-up request {k + 1} answers call ids {[a_[:80] for a_ in ans_]}, the provider issued {issued[:80]!r} ({len(issued)} characters)", rep)
+                    break
     # ---- independent schema oracle over every request body any case of this check sent
     import os
     import subprocess
